@@ -147,14 +147,16 @@ def conditions(tier: str, seed: int) -> typing.List[Cond]:
     out = []  # type: typing.List[Cond]
     shapes = [s for s in T.catalogue(tier, seed) if not _has_float(s)]
     for spec in shapes:
-        subbyte = any(x in repr(spec) for x in ('"u3"', '"bool"', '"i13"', '"u5"', '"void3"', '"tu9"'))
-        top = (3 if subbyte else 5) + (2 if thorough else 0)
+        subbyte = any(x in repr(spec) for x in ("'u3'", "'bool'", "'i13'", "'u5'", "'void3'", "'tu9'", "'tu5'"))
+        heavy = subbyte or "delim" in repr(spec[1:]) or "utf8" in repr(spec)
+        # the bit reader's slow path ORs one bit at a time (CrossHair realises `|`): 2**bits paths for sub-byte shapes
+        top = (1 if heavy else 3) + (1 if thorough else 0)
         for n in range(0, top + 1):
-            out.append(Cond(PROP, "c07.total", make_total, {"spec": spec, "n": n, "ext": 2 if n <= 3 else 0, "header": False},
+            out.append(Cond(PROP, "c07.total", make_total, {"spec": spec, "n": n, "ext": 2 if n <= 1 else 0, "header": False},
                             {"b": bytes}, assumptions=["every byte string of exactly %d bytes" % n],
-                            witness={"b": bytes(n)}, budget=600.0 if thorough else 200.0))
+                            witness={"b": bytes(n)}, budget=1500.0 if thorough else 200.0))
         if spec[0] == "delim":
-            for n in range(0, 7 if thorough else 6):
+            for n in range(0, 6 if thorough else 2):
                 out.append(Cond(PROP, "c07.header", make_total, {"spec": spec, "n": n, "ext": 1, "header": True},
                                 {"b": bytes}, assumptions=["every byte string of exactly %d bytes, top-level delimiter header" % n],
                                 witness={"b": bytes(n)}, budget=300.0))
@@ -176,7 +178,7 @@ def conditions(tier: str, seed: int) -> typing.List[Cond]:
 
 def extra_evidence(tier: str) -> typing.Dict[str, typing.Any]:
     return {
-        "bounds": {"input length": "0..5 bytes for byte-aligned shapes, 0..3 for shapes with sub-byte fields (+2 thorough)",
+        "bounds": {"input length": "0..3 bytes for byte-aligned shapes, 0..1 for shapes with sub-byte fields, nested delimited or utf8 members (+1 thorough); single-bit corruptions and prefixes of valid representations of any length (choice-exhaustive)",
                    "types": "catalogue shapes without float fields"},
         "outside": ["inputs longer than the bound", "float fields (struct.unpack is a C boundary)",
                     "shapes outside the catalogue"],
